@@ -42,17 +42,33 @@ ALLOWED_AXIOMS = {
 }
 FORBIDDEN_RE = re.compile(r'\b(Admitted|admit|Axiom|Parameter|Conjecture|Unset Guard Checking|bypass_check|type-in-type|Admit Obligations)\b')
 
-def grep_gate():
-    """no Admitted/admit/Axiom/... anywhere in the development (comments excluded crudely)"""
+def coq_cone(prop_file):
+    """.v files the property file depends on (transitively, inside coq/), by scanning Require lines"""
+    coq = os.path.join(VERIF, 'coq'); seen = {}; todo = [prop_file.replace('.', '/')]
+    while todo:
+        m = todo.pop()
+        p = os.path.join(coq, m + '.v')
+        if m in seen or not os.path.exists(p): continue
+        seen[m] = p
+        txt = re.sub(r'\(\*.*?\*\)', '', open(p).read(), flags=re.S)
+        for r in re.finditer(r'(?:From\s+(\S+)\s+)?Require\s+(?:Import\s+|Export\s+)?(.*?)\.(?:\s|$)', txt, flags=re.S):
+            if r.group(1) not in (None, 'V'): continue
+            for name in r.group(2).split():
+                if name.startswith('V.'): name = name[2:]
+                todo.append(name.replace('.', '/'))
+    return sorted(seen.values())
+
+def grep_gate(prop_file=None):
+    """no Admitted/admit/Axiom/... in the dependency cone of the property (comments excluded)"""
     bad = []
-    for p in glob.glob(os.path.join(VERIF, 'coq', '**', '*.v'), recursive=True):
+    files = coq_cone(prop_file) if prop_file else glob.glob(os.path.join(VERIF, 'coq', '**', '*.v'), recursive=True)
+    for p in files:
         txt = open(p).read()
         txt_nc = re.sub(r'\(\*.*?\*\)', '', txt, flags=re.S)
         for m in FORBIDDEN_RE.finditer(txt_nc):
             bad.append('%s: %s' % (os.path.relpath(p, VERIF), m.group(0)))
         if re.search(r'^\s*(Variable|Hypothesis|Variables|Hypotheses)\b', txt_nc, flags=re.M):
-            # allowed only inside a Section: crude check that the file has Section
-            if 'Section' not in txt_nc:
+            if not re.search(r'^\s*Section\b', txt_nc, flags=re.M):
                 bad.append('%s: Variable/Hypothesis outside Section' % os.path.relpath(p, VERIF))
     return bad
 
@@ -395,7 +411,7 @@ def run_check(chk, argv):
     # 2. proofs
     cq = coq_build(chk.prop_file, timeout=3000 if tier == 'thorough' else 1500)
     thms = count_theorems(chk.prop_file)
-    gate = grep_gate()
+    gate = grep_gate(chk.prop_file)
     axbad = axiom_gate(cq['theorems'])
     discharged = len([t for t in thms]) if (cq['ok'] and not gate and not axbad) else 0
     if not cq['ok']:
